@@ -282,7 +282,7 @@ where
 //@     (b != 0x0D && b != 0x0A) ==> final(processor).calls() == old(processor).calls(),   // [C01]
 //@     final(processor).calls() == old(processor).calls()
 //@         || (nul_free(old(self).line_bytes()) ==> (dispatch_of(old(self).line_bytes(), feat_help()) matches Some(x)
-//@             && final(processor).calls() == old(processor).calls().push(x))),   // [C01,C12]
+//@             && final(processor).calls() == old(processor).calls().push(x))),   // [C01,C12,C07]
 //@     // C06: whatever byte arrives, afterwards the terminal again shows the prompt followed by the edited line with the
 //@     // cursor at the editor's cursor (prompt and line being printable text; DEL and a non-printable prompt are outside)
 //@     r is Ok && old(self).displayed() && final(self).printable_state() ==> final(self).displayed(),   // [C06]
@@ -559,12 +559,12 @@ where
 //@     // C01: Enter invokes it at most once and only with the tokens of the line as it stood
 //@     control is Enter ==> (final(processor).calls() == old(processor).calls()
 //@         || (nul_free(old(editor).line_bytes()) ==> (dispatch_of(old(editor).line_bytes(), feat_help()) matches Some(x)
-//@             && final(processor).calls() == old(processor).calls().push(x)))),   // [C01,C12]
+//@             && final(processor).calls() == old(processor).calls().push(x)))),   // [C01,C12,C07]
 //@     // C01: when nothing failed, it is invoked exactly when the line has a token and is not a help request;
 //@     // afterwards the line is empty and a fresh prompt has been printed
 //@     control is Enter && r is Ok && nul_free(old(editor).line_bytes()) ==>
 //@         final(processor).calls() == (match dispatch_of(old(editor).line_bytes(), feat_help()) {
-//@             Some(x) => old(processor).calls().push(x), None => old(processor).calls() }),   // [C01,C12]
+//@             Some(x) => old(processor).calls().push(x), None => old(processor).calls() }),   // [C01,C12,C07]
 //@     control is Enter && r is Ok ==> final(editor).line_bytes() == Seq::<u8>::empty() && final(editor).cur() == 0
 //@         && final(self).writer.evs().len() >= 2
 //@         && final(self).writer.evs()[final(self).writer.evs().len() - 2] == Ev::W(final(self).prompt.spec_bytes()),   // [C01]
@@ -893,7 +893,7 @@ where
 //@     final(handler).calls() == (
 //@         if tokens.view().len() == 0 { old(handler).calls() }
 //@         else if feat_help() && wants_help(tokens.view()[0], tokens.view().drop_first()) { old(handler).calls() }
-//@         else { old(handler).calls().push((tokens.view()[0], tokens.view().drop_first())) }),   // [C01,C12]
+//@         else { old(handler).calls().push((tokens.view()[0], tokens.view().drop_first())) }),   // [C01,C12,C07]
 //@     r is Ok ==> final(self).sink_ok(old(self)),   // [C14,C15]
 //@     r is Ok && is_fresh(term_run(old(self).writer.evs())) ==> is_fresh(term_run(final(self).writer.evs())),   // [C06,C13]
         if let Some(command) = RawCommand::from_tokens(&tokens) {
